@@ -2,18 +2,37 @@
 the small geometric dimensions, every case executed on the real /repo code).
 
 Oracle = the per-16-byte-block hardware models in vf/ref/{otfad,iee,bee}_hw.py (written from the
-structure comments / standards, calibrated on the repository's golden images and key blobs by
-`calibrate()` on every run before anything is trusted).
+structure comments / standards, no spsdk import), calibrated by `calibrate()` on every run on the
+repository's golden images, key-blob tables and BEE headers (and on RFC 3394 / IEEE 1619 / CRC check
+vectors) before anything is trusted; a calibration failure is a harness error (exit 2).
+
+Case families (each case is a small dict = the replay file):
+  otfad-img      Otfad.encrypt_image + encrypt_key_blobs + get_key_blobs on explicit / self-chosen key blobs
+  otfad-kb       Otfad.encrypt_key_blobs over KEK x scramble(mask, align) x reversed x byte-swap count
+  otfad-blobapi  KeyBlob.encrypt_image(base_address, data, byte_swap) as the SB2.1 `encrypt` command calls it
+  iee-blobapi    IeeKeyBlob.encrypt_image(base_address, data) on data spanning several 4 KiB units
+  iee-img        Iee.encrypt_image + get_key_blobs + encrypt_key_blobs, all modes
+  iee-kb         IEE key-blob export over KEK x key-blob address x lock x modes
+  bee-img        BeeNxp.export_image + export_headers, FAC ranges assigned to engine 0/1
+  *-nxp          check_config + OtfadNxp/IeeNxp/BeeNxp.load_from_config + binary_image()/export_image()/
+                 export_headers() (= what `nxpimage otfad|iee|bee export` runs), every supported family
 
 Clauses (evaluated independently on every case):
-  C13.<eng>-read       hw_read(exported, addr) == plaintext on every byte of the image: deciphered inside the
-                       configured ranges, passed through (so exported == plaintext) outside
-  C13.<eng>-length     length preserved; growth only as padding to 16 after the last input byte
-  C13.<eng>-locality   encrypting the whole image == concatenation of encrypting its pieces at their addresses
-  C13.<eng>-keyblob    exported key blobs / region headers unwrap to the configured fields, CRC valid
-  C13.<eng>-crash      an exception that is not SPSDKError out of the builder for a legal input
-  C13.iee-bypass       bypass mode leaves the data as they are
-A builder SPSDKError is a rejection (counted), never a violation.
+  C13.<eng>-read        hw_read(exported, addr) == plaintext on every byte of the image: deciphered inside the
+                        configured ranges, passed through (so exported == plaintext) outside
+  C13.<eng>-length      length preserved; growth only as padding to 16 after the last input byte
+  C13.<eng>-locality    encrypting the whole image == concatenation of encrypting its pieces at their addresses
+  C13.<eng>-keyblob     exported key blobs / region headers unwrap to the configured fields, CRC valid
+  C13.<eng>-crash       an exception that is not SPSDKError out of the builder for a legal input
+  C13.iee-bypass        bypass mode leaves the data as they are
+  C13.otfad-blob-encrypt  KeyBlob.encrypt_image result is what the engine deciphers at base_address
+  C13.<eng>-terminates  watchdog
+A builder SPSDKError is a rejection (counted per message), never a violation.
+
+Discriminators name the defect, not the input: kind of the first wrong block (inside:left-plain /
+inside:garbled / outside:modified) + whether the unit-sized chunk *counted from the image base* that holds
+it lies across a range edge + whether the base is unit aligned; the exclusive-end off-by-one of OTFAD has
+its own discriminator; crashes carry exception type @ innermost spsdk frame.
 """
 from __future__ import annotations
 
@@ -31,6 +50,7 @@ U_IEE = 0x1000
 U_BEE = 0x400
 
 LENGTHS = [0, 1, 15, 16, 17, 1023, 1024, 1025, 2048, 4096, 4097]
+QUICK_LENGTHS = [x for x in LENGTHS if x != 4096]  # quick tier: 4096 (same unit count class as 4097 at offsets > 0) is left to thorough
 
 
 # ---------------------------------------------------------------------------------------------
@@ -157,8 +177,6 @@ def pat(seed: int, tag: str, n: int, kind: str = "seed") -> bytes:
 
 
 def calibrate() -> dict:
-    import glob
-
     import yaml
 
     from vf.ref import bee_hw, iee_hw, otfad_hw
@@ -277,7 +295,6 @@ def calibrate() -> dict:
     r, uns = bee_hw.BeeHw(engs).read(e, 0x60001000)
     need(r == p and not uns and e[:0x2000] != p[:0x2000] and e[0x2000:] == p[0x2000:], "bee golden image")
     done["bee"] += 2
-    _ = glob
     return done
 
 
@@ -366,7 +383,8 @@ def otfad_judge_image(hwm: Any, cfg: list, swap: bool, endc: int, img: bytes, ba
             return False
         c0 = base + (o // U_OTFAD) * U_OTFAD
         c1 = min(c0 + U_OTFAD, base + WL) - 1
-        return any((c.last + 1) in (c0, c1) for c in cfg if c.decrypts)
+        blk = (base + o) & ~15  # the defect only ever touches the 16-byte block that starts at end_addr
+        return any(c.last + 1 == blk and blk in (c0, c1) for c in cfg if c.decrypts)
 
     def ctx_of(o: int) -> str:
         return D_ENDPLUS1 if endplus1(o) else chunk_ctx(o, base, WL, U_OTFAD, region_of)
@@ -443,6 +461,22 @@ def otfad_table_judge(hwm: Any, table: bytes, cfg: list, kek: bytes, swap_cnt: i
     return viol
 
 
+def otfad_plain_table_judge(hwm: Any, plain: bytes, cfg: list, zero_fill: Optional[bytes] = bytes(4)) -> list:
+    """get_key_blobs(): the un-wrapped table (64-byte records, 40 meaningful bytes) holds the configured fields."""
+    viol = []
+    if len(plain) % 256 or len(plain) < 64 * len(cfg):
+        return [("C13.otfad-keyblob", "plain-table-size", f"{len(plain)} bytes for {len(cfg)} records")]
+    for c in cfg:
+        rec = plain[64 * c.index: 64 * c.index + 64]
+        g = hwm.parse_plain_record(c.index, rec[:40])
+        bad = [nm for nm, a, b in (("key", g.key, c.key), ("ctr", g.ctr, c.ctr), ("start", g.first, c.first), ("end", g.last, c.last),
+                                   ("flags", g.flags, c.flags), ("crc", g.crc_ok, True), ("filler", rec[40:], bytes(24)),
+                                   ("zero_fill", g.zero if zero_fill is not None else None, zero_fill)) if a != b]
+        if bad:
+            viol.append(("C13.otfad-keyblob", "plain:field:" + "+".join(bad), f"blob {c.index}: {rec[:40].hex()}"))
+    return viol
+
+
 def w_otfad_img(case: dict) -> dict:
     """Otfad.encrypt_image / encrypt_key_blobs on explicit key blobs."""
     _quiet()
@@ -488,6 +522,12 @@ def w_otfad_img(case: dict) -> dict:
                              case.get("pieces", (U_OTFAD,)), cnt)
     # key blobs of this configuration (default transport options; the option product is in w_otfad_kb)
     viol += otfad_table_judge(hwm, table, cfg, kek, 0, None, None, False, zero_fill=None if self_chosen else bytes(4))
+    try:
+        viol += otfad_plain_table_judge(hwm, otfad.get_key_blobs(), cfg, zero_fill=None if self_chosen else bytes(4))
+    except SPSDKError:
+        cnt["rejected:otfad:get_key_blobs"] = 1
+    except Exception as e:  # noqa
+        viol.append(("C13.otfad-crash", exc_site(e) + ",get_key_blobs", f"{type(e).__name__}: {e}"))
     cnt["otfad_img"] = 1
     if L > 0 and any(c.valid and c.first < base + L and c.last >= base for c in cfg):
         cnt["nontrivial"] = 1
@@ -572,21 +612,25 @@ def otfad_img_cases(ctx: core.Ctx) -> list[dict]:
     thorough = ctx.tier == "thorough"
     cases = []
     d7 = (0, 1, 2, 4, 5, 6, 7)
-    for L in LENGTHS + ([3072, 8192] if thorough else []):
+    for L in (LENGTHS + [3072, 8192]) if thorough else QUICK_LENGTHS:
         for off in (0, 16, U_OTFAD - 16):
             n = n_units(off, L, U_OTFAD)
-            lays = grid_layouts(-2, n + 2, pairs=True, chains=(3, 4), chain_lo=None if thorough else -1,
-                                chain_hi=None if thorough else n + 1)
+            full_chains = thorough and L in LENGTHS
+            lays = grid_layouts(-2, n + 2, pairs=True, chains=(3, 4), chain_lo=None if full_chains else -1,
+                                chain_hi=None if full_chains else n + 1)
             for lay in lays:
                 k = len(lay)
                 # (flags, swap, endc, ctr, order) combinations
                 combos = []
                 if k == 1:
-                    combos = [((f,), sw, ec, ct, 0) for f in range(8) for sw in (0, 1) for ec in (0, 1) for ct in ("seed", "ones")]
+                    combos = [((f,), sw, ec, ct, 0) for f in range(8) for sw in (0, 1) for ec in (0, 1)
+                              for ct in (("seed", "ones") if (thorough or f == 3) else ("seed",))]
                     combos += [((3,), sw, 0, "self", 0) for sw in (0, 1)]
                 elif k == 2:
                     combos = [((3, 3), sw, ec, "seed", 0) for sw in (0, 1) for ec in (0, 1)]
-                    if thorough:
+                    if thorough and L not in LENGTHS:
+                        pass  # extra lengths: geometry x swap x end convention only
+                    elif thorough:
                         combos += [((3, 3), sw, ec, "seed", 1) for sw in (0, 1) for ec in (0, 1)]
                         combos += [(fs, sw, ec, "seed", 0) for fs in [(f, 3) for f in d7] + [(3, f) for f in d7]
                                    for sw in (0, 1) for ec in (0, 1)]
@@ -653,7 +697,8 @@ def otfad_kb_cases(ctx: core.Ctx) -> list[dict]:
 # ---------------------------------------------------------------------------------------------
 # IEE
 
-IEE_LENGTHS = LENGTHS + [8192, 8193, 12288]
+IEE_LENGTHS = LENGTHS + [8193]
+IEE_LENGTHS_THOROUGH = LENGTHS + [8192, 8193, 12288, 12289, 16385]
 IEE_WIN = {"mid": 0x30002000, "low": 0, "high": 0xFFFF0000}
 # label -> (aesMode tag, claimed by the property?)
 IEE_MODES = {"XTS": 0xA6, "CTRA": 0x66, "BYP": 0x6A, "CTRN": 0xAA, "KSTR": 0x19}
@@ -871,12 +916,56 @@ def w_iee_kb(case: dict) -> dict:
     return {"viol": core.dedupe(viol), "count": {"iee_kb": 1, "nontrivial": 1}}
 
 
+def w_iee_blobapi(case: dict) -> dict:
+    """IeeKeyBlob.encrypt_image(base_address, data) on data spanning several 4 KiB units (the per-blob API the
+    unit tests use): the result must be what the engine deciphers at base_address."""
+    _quiet()
+    from spsdk.exceptions import SPSDKError
+
+    from vf.ref import iee_hw as hwm
+
+    seed, L = case["seed"], case["L"]
+    a0 = IEE_WIN[case["win"]]
+    base = a0 + case["uoff"] * U_IEE
+    img = core.seeded_bytes(seed, f"img{L}", L)
+    modes = [(m, ks) for _, _, m, ks in case["regs"]]
+    cfg = iee_cfg(hwm, case, a0)
+    cnt: dict = {"iee_blobapi": 1}
+    try:
+        kb = iee_build(cfg, modes)[0]
+        enc = kb.encrypt_image(base, img)
+    except SPSDKError as e:
+        return {"viol": [], "count": {"iee_blobapi_rejected": 1, f"rejected:iee-blobapi:{str(e)[:40]}": 1}}
+    except Exception as e:  # noqa
+        c = cfg[0]
+        carry = modes[0][0] in ("CTRA", "CTRN", "KSTR") and \
+            int.from_bytes(hwm.words_be(c.key2[:16])[12:], "big") + ((base + max(L, 1) - 1) >> 4) >= 1 << 32
+        return {"viol": [("C13.iee-crash", exc_site(e) + (",counter-low-word-carry" if carry else ""),
+                          f"{type(e).__name__}: {e}; IeeKeyBlob.encrypt_image({base:#x}, {L} bytes) mode {modes[0]}")], "count": cnt}
+    viol = iee_judge_image(hwm, cfg, modes, img, base, enc, None, (), cnt)
+    if L:
+        cnt["nontrivial"] = 1
+    return {"viol": core.dedupe(viol), "count": cnt}
+
+
+def iee_blobapi_cases(ctx: core.Ctx) -> list[dict]:
+    cases = []
+    for win in ("mid", "low", "high"):
+        for L in IEE_LENGTHS_THOROUGH:
+            for uoff in (0, 1, 3):
+                for mk in IEE_CLAIMED + IEE_CRASH_ONLY:
+                    for k2 in (("low0", "lowmax") if mk[0] == "CTRA" else ("low0",)):
+                        cases.append({"e": "iee-blobapi", "seed": ctx.seed, "L": L, "win": win, "uoff": uoff, "k2": k2,
+                                      "regs": [[0, 9, mk[0], mk[1]]]})
+    return cases
+
+
 def iee_img_cases(ctx: core.Ctx) -> list[dict]:
     thorough = ctx.tier == "thorough"
     cases = []
     second = IEE_CLAIMED + [("CTRN", 128), ("KSTR", 256)] if thorough else [("XTS", 256), ("CTRA", 128), ("BYP", 128)]
     for win in ("mid", "low", "high"):
-        for L in IEE_LENGTHS:
+        for L in (IEE_LENGTHS_THOROUGH if thorough else IEE_LENGTHS):
             n = n_units(0, L, U_IEE)
             lo = 0 if win == "low" else -2
             full = win == "mid" or thorough
@@ -1048,12 +1137,9 @@ def bee_judge_image(hwm: Any, engines: list, img: bytes, base: int, enc: bytes, 
     for piece in pieces:
         try:
             cat = bytearray()
-            last_len = 0
             for pos, nxt in cut_pieces(base, L, piece):
-                out = encrypt(img[pos:nxt], base + pos)
-                cat += out
-                last_len = len(out) - (nxt - pos)
-        except SPSDKError as e:
+                cat += encrypt(img[pos:nxt], base + pos)
+        except SPSDKError:
             cnt["bee_piece_rejected"] = cnt.get("bee_piece_rejected", 0) + 1
             continue
         except Exception as e:  # noqa
@@ -1065,7 +1151,6 @@ def bee_judge_image(hwm: Any, engines: list, img: bytes, base: int, enc: bytes, 
             viol.append(("C13.bee-locality", chunk_ctx(oo, base, L, U_BEE, region_of),
                          f"whole != concatenation of {piece}-byte pieces at image offset {o}; lengths {len(enc)} vs {len(cat)}; FACs {desc} "
                          f"base {base:#x} len {L}"))
-        _ = last_len
     return viol
 
 
@@ -1122,11 +1207,12 @@ def engine_assignments(k: int) -> list[tuple]:
 def bee_img_cases(ctx: core.Ctx) -> list[dict]:
     thorough = ctx.tier == "thorough"
     cases = []
-    for L in LENGTHS:
+    for L in (LENGTHS + [3072, 8192]) if thorough else QUICK_LENGTHS:
         for off in (0, 16, U_BEE - 16):
             n = n_units(off, L, U_BEE)
-            lays = grid_layouts(-2, n + 2, pairs=True, chains=(3, 4) if thorough else (3,), chain_lo=None if thorough else -1,
-                                chain_hi=None if thorough else n + 1)
+            big = L not in LENGTHS
+            lays = grid_layouts(-2, n + 2, pairs=True, chains=(3,) if (big or not thorough) else (3, 4),
+                                chain_lo=None if (thorough and not big) else -1, chain_hi=None if (thorough and not big) else n + 1)
             for lay in lays:
                 k = len(lay)
                 for asg in engine_assignments(k):
@@ -1460,10 +1546,12 @@ def bee_nxp_cases(ctx: core.Ctx) -> list[dict]:
 
 # ---------------------------------------------------------------------------------------------
 
-WORKERS = {"otfad-img": w_otfad_img, "otfad-kb": w_otfad_kb, "otfad-blobapi": w_otfad_blobapi, "iee-img": w_iee_img, "iee-kb": w_iee_kb, "bee-img": w_bee_img,
+WORKERS = {"otfad-img": w_otfad_img, "otfad-kb": w_otfad_kb, "otfad-blobapi": w_otfad_blobapi, "iee-blobapi": w_iee_blobapi, "iee-img": w_iee_img, "iee-kb": w_iee_kb, "bee-img": w_bee_img,
            "otfad-nxp": w_otfad_nxp, "iee-nxp": w_iee_nxp, "bee-nxp": w_bee_nxp}
-PLAN = [("otfad-img", otfad_img_cases), ("otfad-kb", otfad_kb_cases), ("otfad-blobapi", otfad_blobapi_cases), ("iee-img", iee_img_cases), ("iee-kb", iee_kb_cases),
-        ("bee-img", bee_img_cases), ("otfad-nxp", otfad_nxp_cases), ("iee-nxp", iee_nxp_cases), ("bee-nxp", bee_nxp_cases)]
+# cheap families first, so that a run cut by its budget loses only the tail of the large-image cases
+PLAN = [("otfad-blobapi", otfad_blobapi_cases), ("iee-blobapi", iee_blobapi_cases), ("iee-kb", iee_kb_cases), ("otfad-nxp", otfad_nxp_cases),
+        ("iee-nxp", iee_nxp_cases), ("bee-nxp", bee_nxp_cases), ("otfad-kb", otfad_kb_cases), ("bee-img", bee_img_cases),
+        ("iee-img", iee_img_cases), ("otfad-img", otfad_img_cases)]
 
 
 def run_family(ctx: core.Ctx, name: str, cases: list[dict], timeout: int = 30, chunksize: int = 32) -> None:
@@ -1494,13 +1582,14 @@ def run(ctx: core.Ctx) -> None:
     c = ctx.counters
     if not only:
         # base cases must be accepted: a family in which nothing was executed to the end is a harness error
-        for key in ("otfad_img", "otfad_kb", "otfad_blobapi", "iee_img", "iee_kb", "bee_img", "otfad_nxp", "iee_nxp", "bee_nxp"):
+        for key in ("otfad_img", "otfad_kb", "otfad_blobapi", "iee_blobapi", "iee_img", "iee_kb", "bee_img", "otfad_nxp", "iee_nxp", "bee_nxp"):
             if c.get(key, 0) == 0 and ctx.exhaustive:
                 raise core.HarnessError(f"no accepted case in family {key}")
     ctx.cov["distinct_nontrivial"] = c.get("nontrivial", 0)
     ctx.cov["rejected_by_builder"] = {k: v for k, v in sorted(c.items()) if k.startswith("rejected:")}
     ctx.cov["dimensions"] = {
-        "image_length": LENGTHS, "iee_image_length": IEE_LENGTHS,
+        "image_length": (LENGTHS + [3072, 8192]) if ctx.tier == "thorough" else QUICK_LENGTHS,
+        "iee_image_length": IEE_LENGTHS_THOROUGH if ctx.tier == "thorough" else IEE_LENGTHS,
         "base_offset_in_unit": {"otfad/bee": [0, 16, U_OTFAD - 16], "iee": [0]},
         "address_windows": {"otfad": ["0x08001000", "0x0", "top of 32 bit"], "iee": [hex(v) for v in IEE_WIN.values()],
                             "bee": ["0x60001000", "0x0", "top of 32 bit"]},
